@@ -20,6 +20,7 @@ import (
 	"encoding/hex"
 	"flag"
 	"fmt"
+	"io"
 	"math"
 	"math/rand"
 	"os"
@@ -29,12 +30,14 @@ import (
 	"runtime/debug"
 	"strconv"
 	"strings"
+	"sync"
 	"time"
 
 	"kvharness/internal/gen"
 	"kvharness/internal/msgs"
 
 	"github.com/segmentio/kafka-go/protocol"
+	"github.com/segmentio/kafka-go/protocol/saslauthenticate"
 )
 
 var (
@@ -449,7 +452,16 @@ func child() {
 		if len(p) != 3 {
 			continue
 		}
-		m, ver, frame, ok := caseOf([3]string{p[0], p[1], p[2]})
+		var m msgs.Msg
+		var ver int16
+		var frame []byte
+		ok := false
+		if p[0] == "sasl" {
+			frame, _ = hex.DecodeString(p[2])
+			ok = true
+		} else {
+			m, ver, frame, ok = caseOf([3]string{p[0], p[1], p[2]})
+		}
 		if !ok {
 			continue
 		}
@@ -457,7 +469,12 @@ func child() {
 		w.Flush()
 		var before, after runtime.MemStats
 		runtime.ReadMemStats(&before)
-		out := decodeReal(m, ver, frame)
+		out := ""
+		if p[0] == "sasl" {
+			out = saslRaw(frame)
+		} else {
+			out = decodeReal(m, ver, frame)
+		}
 		runtime.ReadMemStats(&after)
 		if out != "err" && out != "panic" {
 			out = "ok"
@@ -465,6 +482,38 @@ func child() {
 		fmt.Fprintf(w, "done %d %s %d\n", n, out, after.TotalAlloc-before.TotalAlloc)
 		w.Flush()
 	}
+}
+
+// syncBuffer is a bytes.Buffer that can be polled while the child writes to it.
+type syncBuffer struct {
+	mu sync.Mutex
+	b  bytes.Buffer
+}
+
+func (s *syncBuffer) Write(p []byte) (int, error) {
+	s.mu.Lock()
+	defer s.mu.Unlock()
+	return s.b.Write(p)
+}
+func (s *syncBuffer) Len() int       { s.mu.Lock(); defer s.mu.Unlock(); return s.b.Len() }
+func (s *syncBuffer) String() string { s.mu.Lock(); defer s.mu.Unlock(); return s.b.String() }
+
+// saslRaw runs the un-framed SASL token exchange of protocol/saslauthenticate (taken by protocol.Conn.RoundTrip when
+// the broker's SaslHandshake version is 0) against a peer that answers with the given bytes.
+func saslRaw(resp []byte) (out string) {
+	defer func() {
+		if e := recover(); e != nil {
+			out = "panic"
+		}
+	}()
+	rw := struct {
+		io.Reader
+		io.Writer
+	}{bytes.NewReader(resp), io.Discard}
+	if _, err := (&saslauthenticate.Request{AuthBytes: []byte("x")}).RawExchange(rw); err != nil {
+		return "err"
+	}
+	return "ok"
 }
 
 // malFile runs the cases in child processes: a child that dies takes only the case it was working on with it.
@@ -494,7 +543,8 @@ func malFile(path string) {
 			cmd := exec.Command("sh", "-c", fmt.Sprintf("ulimit -v %d; exec %q -child", 4*memLimitKB, self))
 			cmd.Env = append(os.Environ(), "GOMEMLIMIT=512MiB", "GOTRACEBACK=none")
 			cmd.Stdin = &in
-			var stdout, stderr bytes.Buffer
+			var stdout syncBuffer
+			var stderr bytes.Buffer
 			cmd.Stdout, cmd.Stderr = &stdout, &stderr
 			done := make(chan error, 1)
 			if err := cmd.Start(); err != nil {
@@ -503,13 +553,25 @@ func malFile(path string) {
 			}
 			go func() { done <- cmd.Wait() }()
 			// budget: 20 s per batch of progress; a child that stops making progress is killed
+			// watchdog on PROGRESS: the child is killed only when no case finished for 5 s (a loaded machine
+			// must not turn a slow batch into a verdict)
 			timedOut := false
-			select {
-			case <-done:
-			case <-time.After(5 * time.Second):
-				timedOut = true
-				cmd.Process.Kill()
-				<-done
+			last, lastChange := -1, time.Now()
+		wait:
+			for {
+				select {
+				case <-done:
+					break wait
+				case <-time.After(200 * time.Millisecond):
+					if n := stdout.Len(); n != last {
+						last, lastChange = n, time.Now()
+					} else if time.Since(lastChange) > 5*time.Second {
+						timedOut = true
+						cmd.Process.Kill()
+						<-done
+						break wait
+					}
+				}
 			}
 			started, finished := -1, -1
 			for _, line := range strings.Split(stdout.String(), "\n") {
